@@ -133,18 +133,43 @@ func init() {
 			x.block("yield", func() bool { return true })
 			return nil
 		},
+		"verifYieldTag": func(fr *frame, a []Value) Value {
+			x := fr.x
+			tag, ok := strConcrete(a[0].(StrV))
+			if !ok {
+				tag = "?"
+			}
+			x.block("yield", func() bool { return true })
+			x.yieldOrder = append(x.yieldOrder, tag)
+			return nil
+		},
 		// verifQuiesce: wait until every other goroutine is finished or blocked
 		"verifQuiesce": func(fr *frame, a []Value) Value {
 			x := fr.x
 			me := x.cur
-			x.block("quiesce", func() bool {
+			idle := func() bool {
 				for _, g := range x.goroutines {
 					if g != me && !g.done && (g.ready == nil || g.waitDesc != "quiesce" && g.waitDesc != "tick" && g.ready()) {
 						return false
 					}
 				}
 				return true
-			})
+			}
+			for round := 0; round < 4; round++ {
+				x.block("quiesce", idle)
+				// goroutines polling on a ticker get one more turn each: time passes
+				n := 0
+				for _, g := range x.goroutines {
+					if g != me && !g.done && g.waitDesc == "tick" {
+						g.waitDesc = "tick-turn"
+						n++
+					}
+				}
+				if n == 0 {
+					break
+				}
+			}
+			x.block("quiesce", idle)
 			return nil
 		},
 		// verifGoroutines: number of live goroutines other than the caller
@@ -232,7 +257,7 @@ func (x *Exec) assertion(c *Term, msg string) {
 		x.res.Asserts++
 		x.assertPC(c)
 	case Sat:
-		v := Violation{Kind: "assert", Msg: msg, Harness: x.eng.harnessName, Model: x.buildModel(m), Trace: append([]Dec{}, x.trace...), Where: x.where()}
+		v := Violation{Kind: "assert", Msg: msg, Harness: x.eng.harnessName, Model: x.buildModel(m), Trace: append([]Dec{}, x.trace...), Where: x.where(), Yields: append([]string{}, x.yieldOrder...)}
 		x.res.Violations = append(x.res.Violations, v)
 		if x.eng.knownLabels[msg] {
 			// listed finding: keep exploring the inputs on which the assertion holds
